@@ -17,22 +17,40 @@ RULE = ("seeded generator: ReadTCPRequest / server frame-type read + ReadTCPRequ
         "address/message lengths 0,1,63,64,2047,2048,2049, padding lengths 0,1,63,64,4095,4096,4097, declared lengths up to 2^62-1; "
         "every legal varint width 1/2/4/8 per length field; chunkings: whole, byte-wise, every 2-split of short frames, splits at "
         "field boundaries +-1, random k-splits with zero reads; trailing payload 0/1/100 bytes; truncations and injected errors at "
-        "every offset of short frames; random garbage. WriteTCPRequest/WriteTCPResponse with the drawn padding read back from the "
-        "bytes and the frame re-read through the real reader in chunks with trailing payload. varintPut at the width boundaries on "
+        "every offset of short frames - the verdict knows whether the frame was complete when the error came: a well-formed frame all of "
+        "whose bytes are delivered before, or together with, the first error must be read back identical (io.EOF in the very Read that "
+        "delivers the last bytes, as a QUIC stream does when FIN is coalesced with the final STREAM frame) or, for another error delivered "
+        "with the last byte, either be read back or report exactly that error; FIN-coalesced class: every fn x paddings "
+        "0,1,63,64,511,512,513,1024,4095,4096 x every legal width x whole/byte-wise/field-boundary/random/zero-read chunkings with the "
+        "final read carrying data+io.EOF right behind the frame or behind the trailing payload, plus data+other-error variants; random "
+        "garbage. WriteTCPRequest/WriteTCPResponse with the drawn padding read back from the "
+        "bytes and the frame re-read through the real reader in chunks with trailing payload (half of them with a final data+io.EOF read). varintPut at the width boundaries on "
         "buffers of every length 0..9. CONCURRENCY: 2-4 frames (req/srv/resp mixed, equal and different value lengths, some rejected "
         "or truncated) parsed at the same time by one goroutine each over gated scripted readers that park between length and value, "
         "inside the value, between value and padding, inside the padding; the gating order (victim parked while the others run to the "
         "end, round robin, nested, random) is part of the case and is executed by the harness as the scheduler (one P, no GC, so per-P "
         "caches are handed from parser to parser), plus a free-running mode; every stream is judged against what that stream carried "
-        "and compared with the sequential model of its own script; thorough tier: the same cases under -race. Non-trivial = well-formed frame read under a non-trivial chunking / non-minimal width / with "
+        "and compared with the sequential model of its own script (some streams end with a data+io.EOF read); thorough tier: the same cases under -race. "
+        "END TO END (package integration_tests): a real server.NewServer over loopback QUIC and a hand-written conforming client; per "
+        "authenticated connection 14-20 streams, each = frame type 0x401 on 2/4/8 bytes x address length on every legal width x padding "
+        "length on every legal width (all 48 width combinations cycled), address lengths 1..2048, paddings 0..4096, trailing payload "
+        "0/1/7/100/3000, written whole or cut into several Writes (frame type alone, byte-wise, inside the frame type, random, payload "
+        "separately) with pauses, optional FIN right behind; the server's Outbound is a fake that records the address and refuses with a "
+        "recognisable message or echoes: the dialled address must equal the bytes sent, the refusal must come back through "
+        "ReadTCPResponse, the target must receive exactly the trailing payload; empty/over-limit lengths behind a wide frame type must not "
+        "be dialled and the server must end the stream though fewer bytes than declared follow; other frame types are not dialled; "
+        "'never dialled' is only a verdict after a canonical probe stream on the same connection was served; compared with the model of "
+        "the dispatcher (Peek) + hijacker + ReadTCPRequest. Non-trivial = well-formed frame read under a non-trivial chunking / non-minimal width / with "
         "trailing payload, or an over-limit frame, or a writer round trip. Distinct = distinct JSON case.")
 ASSUMPTIONS = [
     "the stream handed to the readers has no ReadByte method (utils.QStream has none), so quicvarint.NewReader wraps it in the one-byte-at-a-time byteReader",
     "io.ReadFull / io.CopyN / io.Discard / io.LimitedReader behave as in the Go 1.25 source they were transcribed from (lib/Reader.v)",
     "the io.Reader honours its contract (returns at most len(p) bytes); scripts are finite (an exhausted script reads as io.EOF)",
+    "quic.Stream.Peek hands out the next len(b) bytes of the stream without consuming them and waits until they have arrived (model/C04_Dispatch.v peek_s); the connection is authenticated when the request stream is dispatched",
     "concurrent parsers share no state: each reads only its own stream and the modelled functions use no package-level state, so a concurrent run is modelled as the sequential runs of its streams (checked on every run by the concurrency class of the harness: interleavings at the gates of the scripted readers, not every instruction-level interleaving)",
 ]
-TRUSTED = ["modelled rather than verified: core/internal/protocol/proxy.go TCP framing functions and the Go io helpers (hand transcription in coq/model/C04_Framing.v and coq/lib/Reader.v)"]
+TRUSTED = ["modelled rather than verified: core/internal/protocol/proxy.go TCP framing functions and the Go io helpers (hand transcription in coq/model/C04_Framing.v and coq/lib/Reader.v)",
+           "modelled rather than verified: http3's per-stream dispatch (quicvarint.Peek + StreamDispatcher) and core/server ProxyStreamHijacker (hand transcription in coq/model/C04_Dispatch.v; tied by the end-to-end class)"]
 PER_SHARD = 170
 EXTRA_TARGETS = ["corr/C04_Corr.vo"]
 
@@ -829,7 +847,12 @@ LEVEL_TEXT = ("Machine-checked Coq theorems over a statement-by-statement Gallin
               "io.CopyN to io.Discard) over an io.Reader modelled as an arbitrary finite script of reads: for every address/message, "
               "every padding, every legal varint width, every chunking (zero-length reads included) and every trailing payload the frame "
               "is read back identical and the reader stops exactly at the end of the frame; over-limit or empty lengths are rejected "
-              "after single-byte reads only, with nothing allocated; the readers never panic on any script. The model is tied to /repo on "
+              "after single-byte reads only, with nothing allocated; the readers never panic on any script; the server path is modelled from the "
+              "http3 dispatcher on (Peek of the frame type without consuming, ProxyStreamHijacker consuming it, ReadTCPRequest): for every "
+              "fitting width of the frame type the dispatcher and the hijacker decode the same bytes, the request is decoded to the address "
+              "sent and exactly the trailing payload is left, other frame types are left untouched; an io.EOF delivered together with the "
+              "last bytes of a stream is indistinguishable from an io.EOF at the next Read for all three readers (any script), hence complete "
+              "frames are read back when FIN is coalesced with their last bytes. The model is tied to /repo on "
               "every run by regenerated constants and a differential run of the Go code against the model (vm_compute in the kernel).")
 LEVEL_NOTE = ("Trusted: Coq kernel + vm_compute; hand-written model incl. the transcription of Go's io helpers (tie is sampled differential "
               "testing + regenerated Params); python/Go glue. No axioms. Not proved: QUIC stream internals; out-of-memory behaviour of make().")
